@@ -43,8 +43,8 @@ def run(ctx):
     def ppm(x):
         return int(max(-2 * 10 ** 9, min(2 * 10 ** 9, round(x * 1e6))))
 
-    pairs = [(0.0, 1.0), (0.2, 1.2), (0.0, 1e-3), (1e-3, 2e-3), (-50.0, 50.0), (0.0, 100.0), (3.0, 10.0), (-0.5, 0.5), (2e-3, 4.5e-2), (10.0, 12.0)]
-    nrun = 120 if T else 18
+    pairs = [(0.0, 1.0), (-1.0, 0.0), (0.2, 1.2), (0.0, 1e-3), (-0.9, 0.1), (1e-3, 2e-3), (-50.0, 50.0), (0.0, 100.0), (-100.0, 5.0), (3.0, 10.0), (-0.5, 0.5), (2e-3, 4.5e-2), (10.0, 12.0), (-2e-3, 0.0)]
+    nrun = 140 if T else 21
     for it in range(nrun):
         sps = [16, 8, 32][it % 3]
         kind = "random" if it % 2 else "prbs"
